@@ -260,6 +260,8 @@ def lookup_const(name):
     eng = CURRENT[0]
     if eng is None:
         return None
+    # generic arguments are dropped in the names of const definitions (`f::<impl T>::promoted[0]` is defined as `f::promoted[0]`)
+    name = re.sub(r'::<[^:]*>', '', name)
     parts = name.split('::')
     for mod in eng.modules:
         for k in range(len(parts)):
@@ -325,7 +327,7 @@ class Engine:
         self.solver_checks = 0
 
     def lookup(self, callee):
-        name = callee.strip()
+        name = re.sub(r'::<.*>$', '', callee.strip())
         cands = [name, name.split('::')[-1]]
         # `milky_way::staking::Batch::new` -> `staking::Batch::new` / `Batch::new`
         parts = name.split('::')
